@@ -68,7 +68,90 @@ Import: 'import' importURI=STRING;
 Thing: 'thing' name=ID ('->' ref=[Thing])? ('note' note=STRING)?;
 '''
 
-GRAMMARS = dict(repo=G_REPO, object=G_OBJECT, shapes=G_SHAPES, match=G_MATCH, classes=G_CLASSES, unicode=G_UNICODE, plain=G_PLAIN, noname=G_NONAME)
+G_USER = r'''
+Drawing: shapes+=Shape;
+Shape: Line | Circle;
+Line: 'line' a=Point '-' b=Point;
+Circle: 'circle' c=Point 'r' r=INT tag=Tag?;
+Point: x=INT ',' y=INT;
+Tag: '#' name=ID;
+'''
+
+
+# user classes of the `user` grammar: value semantics (equal by fields), one of them unhashable
+class Point:
+    def __init__(self, parent, x, y):
+        self.parent, self.x, self.y = parent, x, y
+
+    def __eq__(self, other):
+        return isinstance(other, Point) and (self.x, self.y) == (other.x, other.y)
+
+    def __hash__(self):
+        return hash((self.x, self.y))
+
+
+class Tag:
+    def __init__(self, parent, name):
+        self.parent, self.name = parent, name
+
+    def __eq__(self, other):
+        return isinstance(other, Tag) and self.name == other.name
+
+    __hash__ = None
+
+
+class Circle:
+    def __init__(self, parent, c, r, tag):
+        self.parent, self.c, self.r, self.tag = parent, c, r, tag
+
+
+USER_CLASSES = dict(user=[Point, Tag, Circle])
+
+# grammars of several files (flat directory; the first entry is the main grammar): the same rule
+# names in several files, and a file that is only imported by an imported file
+G_MULTI = {
+    "multi.tx": """import people
+import companies
+Book: 'book' entries+=Entry addr=Address others*=PEntry firms*=CEntry;
+Entry: 'entry' name=ID;
+Address: 'at' street=STRING;
+PEntry: 'p' e=people.Entry;
+CEntry: 'c' e=companies.Entry;
+""",
+    "people.tx": """Entry: 'person' name=ID home=Address?;
+Address: 'home' city=STRING;
+""",
+    "companies.tx": """Entry: 'company' name=ID seat=Address?;
+Address: 'seat' country=STRING;
+""",
+}
+G_DEEP2 = {
+    "deep2.tx": """import mid2
+Top: 'top' mids+=Mid own=Leaf?;
+Leaf: 'topleaf' v=INT;
+""",
+    "mid2.tx": """import low2
+Mid: 'mid' name=ID leaves*=Leaf;
+""",
+    "low2.tx": """Leaf: 'leaf' name=ID kind=Kind?;
+Kind: 'kind' k=STRING;
+""",
+}
+G_DEEP = {
+    "deep.tx": """import mid
+Top: 'top' mids+=Mid own=Leaf?;
+Leaf: 'topleaf' v=INT;
+""",
+    "mid.tx": """import low
+Mid: 'mid' name=ID leaves*=Leaf base=Base?;
+Base: Leaf;
+""",
+    "low.tx": """Leaf: 'leaf' name=ID kind=Kind?;
+Kind: 'kind' k=STRING;
+""",
+}
+
+GRAMMARS = dict(user=G_USER, multi=G_MULTI, deep=G_DEEP, deep2=G_DEEP2, repo=G_REPO, object=G_OBJECT, shapes=G_SHAPES, match=G_MATCH, classes=G_CLASSES, unicode=G_UNICODE, plain=G_PLAIN, noname=G_NONAME)
 
 SPECIALS = ['"', "\\", "{", "}", "|", "<", ">", "\n", "é", "?", " ", "'"]
 FIXED = ['"', "\\q", "{", "}", "|", "<", ">", "a\nb", "é ü", "|{", "}{", "<p>", "x>y", "a b", 'a"b', "{a|b}", "<", "a\\{",
@@ -182,6 +265,33 @@ def model_text(kind, rng, special=True):
                 t += " " + q(S())
             out.append(t)
         return " ".join(out)
+    if kind == "user":       # few coordinates: distinct objects that are equal by value
+        def pt():
+            return f"{rng.randint(0, 1)},{rng.randint(0, 1)}"
+        out = []
+        for _ in range(rng.randint(2, 5)):
+            if rng.random() < 0.5:
+                out.append(f"line {pt()} - {pt()}")
+            else:
+                out.append(f"circle {pt()} r {rng.randint(1, 3)}" + (f" #{rng.choice(['t', 'u'])}" if rng.random() < 0.7 else ""))
+        return "\n".join(out)
+    if kind == "multi":
+        out = ["book", f"entry {ident(rng)}", f"at {q(S())}"]
+        for _ in range(rng.randint(0, 2)):
+            out.append(f"p person {ident(rng)}" + (f" home {q(S())}" if rng.random() < 0.6 else ""))
+        for _ in range(rng.randint(0, 2)):
+            out.append(f"c company {ident(rng)}" + (f" seat {q(S())}" if rng.random() < 0.6 else ""))
+        return "\n".join(out)
+    if kind in ("deep", "deep2"):
+        out = ["top"]
+        for _ in range(rng.randint(1, 3)):
+            t = f"mid {ident(rng)}"
+            for _ in range(rng.randint(0, 2)):
+                t += f" leaf {ident(rng)}" + (f" kind {q(S())}" if rng.random() < 0.5 else "")
+            out.append(t)
+        if rng.random() < 0.5:
+            out.append(f"topleaf {rng.randint(0, 9)}")
+        return "\n".join(out)
     if kind == "object":
         def lit():
             return str(rng.randint(0, 99)) if rng.random() < 0.5 else q(S())
@@ -219,21 +329,45 @@ def model_text(kind, rng, special=True):
 
 
 # ---------------------------------------------------------------- projections of the model side
-def mm_counts(mm):
-    """What a meta-model export must show: a node / declared class per common and abstract class
-    (the built-in OBJECT class may be shown as well when an attribute has that type)."""
+def grammar_files(kind):
+    """{file name: text}; the first one is the main grammar."""
+    g = GRAMMARS[kind]
+    return g if isinstance(g, dict) else {f"{kind}.tx": g}
+
+
+def grammar_imports(kind):
+    """Import structure of a corpus grammar as written above: [(namespace, [imported namespaces])], main first."""
+    import re
+    return [(name[:-3], re.findall(r"^import (\S+)", text, re.M)) for name, text in grammar_files(kind).items()]
+
+
+def mm_counts(mm, kind=None):
+    """Projection of a meta-model: per grammar file (namespace) the common and abstract classes, the match
+    rules, whether an attribute has the built-in OBJECT type.  Read from mm.namespaces (every class of every
+    loaded grammar file), not by iterating the meta-model."""
     from textx.const import RULE_MATCH
     from textx.lang import ALL_TYPE_NAMES
-    drawn, match = [], []
-    seen = set()
+    per_ns, match, subs = {}, [], {}
     has_object = False
-    for cls in mm:
-        if cls._tx_fqn in seen or cls.__name__ in ALL_TYPE_NAMES:
+    for ns, classes in mm.namespaces.items():
+        if ns == "__base__":
             continue
-        seen.add(cls._tx_fqn)
-        (match if cls._tx_type is RULE_MATCH else drawn).append(cls._tx_fqn)
-        has_object = has_object or any(a.cls.__name__ == "OBJECT" for a in cls._tx_attrs.values())
-    return dict(classes=sorted(drawn), match=sorted(match), has_object=has_object)
+        for name, cls in classes.items():
+            if name in ALL_TYPE_NAMES and cls._tx_fqn == name:
+                continue
+            if cls._tx_type is RULE_MATCH:
+                match.append(cls._tx_fqn)
+            else:
+                per_ns.setdefault(ns, []).append(cls._tx_fqn)
+                subs.setdefault(ns, []).extend([cls._tx_fqn, c._tx_fqn] for c in cls._tx_inh_by
+                                               if hasattr(c, "_tx_fqn") and "." in c._tx_fqn)
+            has_object = has_object or any(a.cls.__name__ == "OBJECT" for a in cls._tx_attrs.values())
+    imports = dict(grammar_imports(kind)) if kind else {}
+    order = [n for n, _ in grammar_imports(kind)] if kind else sorted(per_ns)
+    files = [dict(ns=ns, imports=[order.index(i) + 1 for i in imports.get(ns, []) if i in order],
+                  classes=sorted(per_ns.get(ns, [])), subs=sorted(subs.get(ns, []))) for ns in order]
+    return dict(files=files, classes=sorted(c for v in per_ns.values() for c in v), match=sorted(match),
+                has_object=has_object)
 
 
 def model_objects(model):
